@@ -407,6 +407,16 @@ fn activity() -> u64 {
 /// (no H2 site passed by any shard actor or handle, no stamp taken by any client), the pending calls
 /// can no longer complete: the tasks are aborted and `true` is returned. The criterion is the absence
 /// of observable events, not the duration of any operation.
+/// How long "nothing at all happens" must last before pending calls are declared lost. 8 s on a native build; the
+/// driver raises it for the instrumented flavours (an interpreter or a sanitizer can spend that long between two
+/// events without anything being wrong) - there a real hang ends in the driver's watchdog, i.e. inconclusive.
+fn quiet_secs() -> u64 {
+    if cfg!(miri) {
+        return u64::MAX / 4;
+    }
+    std::env::var("VH_QUIET_SECS").ok().and_then(|s| s.parse().ok()).unwrap_or(8)
+}
+
 async fn join_or_stuck(hs: Vec<tokio::task::JoinHandle<()>>, extra: &dyn Fn() -> u64) -> bool {
     let mut last = activity() + extra();
     let mut last_change = std::time::Instant::now();
@@ -421,7 +431,7 @@ async fn join_or_stuck(hs: Vec<tokio::task::JoinHandle<()>>, extra: &dyn Fn() ->
         if now != last {
             last = now;
             last_change = std::time::Instant::now();
-        } else if last_change.elapsed().as_secs() >= 8 {
+        } else if last_change.elapsed().as_secs() >= quiet_secs() {
             for h in &hs {
                 h.abort();
             }
@@ -692,7 +702,7 @@ pub fn lin_leg(args: &Args) {
             rep.count("replies_never_delivered");
             rep.violation(
                 format!("C02|reply-never-delivered|via={:?}", r.via),
-                format!("client {} invoked {:?} on {} and never got a reply: every client, shard actor and hand-off site was silent for 8 s while the call was pending", r.client, r.op, key_name(r.key)),
+                format!("client {} invoked {:?} on {} and never got a reply: every client, shard actor and hand-off site was silent for the whole quiet period while the call was pending", r.client, r.op, key_name(r.key)),
                 json!({"cfg": cj, "history": hist.iter().filter(|o| o.key == r.key).map(op_json).collect::<Vec<_>>()}),
             );
         }
@@ -922,7 +932,7 @@ async fn run_conn_history(cfg: &ConnCfg, seed: u64) -> ConnOutcome {
     if stuck {
         // a connection handler that neither answers nor returns to reading while nothing else moves
         for (c, recs) in pending.lock().unwrap().drain() {
-            g.anomalies.push((c, "reply-missing".into(), json!({"handler": "stuck: no reply, no return to reading, no hook-site or stream event for 8 s", "burst": recs.iter().map(|r| format!("{} {:?}", key_name(r.key), r.op)).collect::<Vec<_>>()})));
+            g.anomalies.push((c, "reply-missing".into(), json!({"handler": "stuck: no reply, no return to reading, no hook-site or stream event for the whole quiet period", "burst": recs.iter().map(|r| format!("{} {:?}", key_name(r.key), r.op)).collect::<Vec<_>>()})));
             g.hist.extend(recs);
         }
     }
